@@ -294,16 +294,23 @@ P_C16 == (Quiescent /\ lastcall.op = "saveload") =>
 \* ---------------------------------------------------------------- placeholders decided by conformance only (see DESIGN.md)
 \* position of the first deferral of payload qp
 QArrival(qi, qp) == CHOOSE qk \in 1..Len(defseq[qi]) : defseq[qi][qk].p = qp /\ \A qj \in 1..(qk-1) : defseq[qi][qj].p # qp
-P_C05 == Quiescent =>
-   \* a deferred occurrence is never reported through no_transition while it is pending
-   /\ \A qi \in 1..QLen : (obs[qi].k = "nt") => ~(obs[qi].p \in defd[obs[qi].i] /\ \E qj \in 1..QLen : qj < qi /\ obs[qj].k = "deferred" /\ obs[qj].p = obs[qi].p
+\* a deferred occurrence is never reported through no_transition while it is pending
+P_C05a == Quiescent =>
+   \A qi \in 1..QLen : (obs[qi].k = "nt") => ~(obs[qi].p \in defd[obs[qi].i] /\ \E qj \in 1..QLen : qj < qi /\ obs[qj].k = "deferred" /\ obs[qj].p = obs[qi].p
                                                         /\ ~\E qk \in (qj+1)..(qi-1) : obs[qk].k = "pei" /\ obs[qk].p = obs[qi].p)
-   \* deferred occurrences of one type, handled by one machine, are handled in their arrival order.
-   \* back / back11: arrival = the moment the occurrence was first offered and deferred (position of its first deferral);
-   \* backmp11: the event pool is queue and deferral store at once, arrival = submission (payloads are issued in submission order)
-   /\ \A qi \in Insts : \A qa, qb \in 1..Len(hdl[qi]) :
-         (qa < qb /\ hdl[qi][qa].t = hdl[qi][qb].t /\ hdl[qi][qa].m = hdl[qi][qb].m /\ hdl[qi][qa].p # hdl[qi][qb].p) =>
-             IF IsB THEN QArrival(qi, hdl[qi][qa].p) < QArrival(qi, hdl[qi][qb].p) ELSE hdl[qi][qa].p < hdl[qi][qb].p
+\* deferred occurrences of one type, handled by one machine, are handled in their arrival order.
+\* back / back11: arrival = the moment the occurrence was first offered and deferred (the re-sort of the deferred queue restores it);
+\* backmp11: the event pool is queue and deferral store at once: arrival = position in the pool, i.e. the last time the occurrence
+\* was put into it (an occurrence deferred again by a Defer action is re-appended)
+P_C05b == Quiescent =>
+   \A qi \in Insts : \A qa, qb \in 1..Len(hdl[qi]) :
+         \* (machines configured event_queue_before_deferred_queue deliberately give queued events priority over pending deferred
+         \*  ones, which lets a newly deferred occurrence overtake an older one inside a round: outside the statement's default order)
+         (qa < qb /\ hdl[qi][qa].t = hdl[qi][qb].t /\ hdl[qi][qa].m = hdl[qi][qb].m /\ hdl[qi][qa].p # hdl[qi][qb].p
+             /\ ~MD(hdl[qi][qa].m).qfirst) =>
+             IF IsB THEN QArrival(qi, hdl[qi][qa].p) < QArrival(qi, hdl[qi][qb].p) ELSE hdl[qi][qa].a < hdl[qi][qb].a
+P_C05 == P_C05a /\ P_C05b
+
 \* ---------------------------------------------------------------- C08 / C09: what a (re-)entered submachine activates
 \* documented restore function: named regions as the target says, the others by the history policy
 QRestore(qi, qs, qet, qnamed) ==
